@@ -1,7 +1,17 @@
-"""C05 — queued processing is run-to-completion, FIFO and exactly-once."""
-from .. import common, flat, flatcheck
+"""C05 — queued processing is run-to-completion, FIFO and exactly-once.
+
+Flat synchronous engine: streams `queued`, `unqueued`, `queued-classes`, `async-queued` (flatcheck machinery).
+Transports (theorems in lean/Props/C05N.lean, C05A.lean, C05M.lean):
+  `nested-queued`, `nested-unqueued`   hierarchical classes, harness/nested5.py
+  `async-monitor`                      AsyncMachine with queued=True (acceptor `C05.idle`) and queued='model' on
+                                       several models (acceptor `C05M.accept`, one queue per model)"""
+import json
+import random
+
+from .. import common, flat, flatcheck, runner, nested5
 from ..common import SLOT
 from ..flat import TRIGGER, REMOVE
+from ..runner import Exploration, Failure
 
 
 def add_marker(d, rng):
@@ -90,15 +100,197 @@ def async_oracle(d, r):
     return out
 
 
+# ---------------------------------------------------------------------------------------------
+# async-monitor: the verified acceptors on implementation traces of AsyncMachine
+# ---------------------------------------------------------------------------------------------
+
+ASYNC_MONITOR = dict(quick=(8, 60), thorough=(32, 400))
+
+
+def knobs_async_monitor():
+    k = knobs_async()
+    k.max_models = 3
+    k.p_cmds = 0.4
+    return k
+
+
+def gen_permodel_scenario(rng):
+    """a structured two-/three-model case for the per-model clauses: while model 0 processes `e0`, one of its
+    callbacks (the carrier) defers events to model 0 itself and awaits a trigger on model 1, whose queue is idle — a
+    nested draining session — in which callbacks defer further events to BOTH models and (often) raise, with or
+    without `on_exception` handlers; afterwards the deferred events of model 0 must still be processed, in order"""
+    d = flat.FlatDesc()
+    nxt = [0]
+
+    def new(slot):
+        c = nxt[0]
+        nxt[0] += 1
+        d.cb_slot[c] = SLOT[slot]
+        return c
+    p, b, a = new('prepare'), new('before'), new('after')
+    x0, n1 = new('on_exit'), new('on_enter')
+    b1 = new('before')
+    d.states = [{'name': 0, 'on_enter': [], 'on_exit': [x0], 'ignore': None, 'final': False},
+                {'name': 1, 'on_enter': [n1], 'on_exit': [], 'ignore': None, 'final': False}]
+    t01 = {'source': 0, 'dest': 1, 'prepare': [p], 'conds': [], 'before': [b], 'after': [a]}
+    t10 = {'source': 1, 'dest': 0, 'prepare': [], 'conds': [], 'before': [], 'after': []}
+    d.events = [(0, [t01, t10]),
+                (1, [{'source': s, 'dest': None, 'prepare': [], 'conds': [], 'before': [b1], 'after': []} for s in (0, 1)])]
+    d.finalize = [new('finalize_event')] + ([new('finalize_event')] if rng.random() < 0.3 else [])
+    if rng.random() < 0.7:
+        d.on_exception = [new('on_exception')]
+    if rng.random() < 0.3:
+        d.prepare_event = [new('prepare_event')]
+    d.ignore = rng.choice([None, True])
+    d.queued = True
+    d.send_event = rng.random() < 0.3
+    d.models = list(range(rng.choice((2, 2, 3))))
+    order = [p, b, x0, n1, a]
+    i = rng.randrange(len(order))
+    carrier = order[i]
+    T = lambda m, e: (TRIGGER, m, e)
+    cmds = [T(0, 1)] * rng.randint(0, 2) + [T(1, 0)] + [T(0, 1)] * rng.randint(0, 2)
+    if len(d.models) > 2 and rng.random() < 0.5:
+        cmds.insert(rng.randrange(len(cmds) + 1), T(2, rng.choice((0, 1))))
+    d.script[(carrier, 0)] = (cmds, ('ret', True))
+    # invocation index of a callback inside the nested session of model 1
+    def k_nested(j):
+        return 1 if j <= i else 0
+    j = rng.randrange(len(order))
+    inner = []
+    if rng.random() < 0.6:
+        inner = [T(rng.choice((0, 1)), 1) for _ in range(rng.randint(1, 2))]
+    out = ('raise', 4 if rng.random() < 0.25 else 3, 0) if rng.random() < 0.7 else ('ret', True)
+    if inner or out != ('ret', True):
+        key = (order[j], k_nested(j))
+        if key not in d.script:
+            d.script[key] = (inner, out)
+        # the only way a nested session can RAISE while the enclosing event survives: the exception escapes the nested
+        # event because its on_exception handler raises itself (first invocation), and the enclosing event's handler
+        # (second invocation) returns — the enclosing session must then go on with ITS pending events
+        if d.on_exception and out[0] == 'raise' and rng.random() < 0.6:
+            d.script[(d.on_exception[0], 0)] = ((), ('raise', 3, 1))
+    d.history = [T(0, 0)] + [T(rng.randrange(len(d.models)), rng.choice((0, 1))) for _ in range(rng.randint(0, 3))]
+    return d
+
+
+def gen_async_monitor(rng):
+    from .. import aflat
+    qm = rng.choice((1, 2, 2))
+    if rng.random() < 0.35:
+        d = gen_permodel_scenario(rng)
+    else:
+        d = flat.gen_flat(rng, knobs_async_monitor())
+        add_marker(d, rng)
+    # (decorate with qmode=1: all models are kept; a callback that awaits triggers sits alone in its stage)
+    aflat.decorate(d, rng, qmode=1, raise_in_stage=True, keep_kinds=(TRIGGER,))
+    d.qmode = qm
+    return d
+
+
+def async_monitor_judge(d, model_ans=None):
+    """-> (failures, run)"""
+    from .. import aflat
+    from transitions.extensions.asyncio import AsyncMachine
+    r = aflat.Run7(d, AsyncMachine, True).run()
+    case = {'stream': 'async-monitor', 'desc': aflat.to_json(d), 'qmode': d.qmode}
+    out = []
+    # the Lean async engine (the object of C05A_queued_history / C05M_permodel_history) on the same case: C07's check
+    # ties it to AsyncMachine on ITS generator; here on the per-model scenarios (nested sessions, raises inside them)
+    if aflat.is_solo(d):
+        if model_ans is None:
+            model_ans = common.batch_driver([('aflat', aflat.enc_aflat(d))])[0]
+        m = flat.parse_model_answer(model_ans)
+        if m is not None:
+            items, models, st = m
+            if items != r.items or (models, st) != r.final():
+                k = next((i for i, (x, y) in enumerate(zip(items, r.items)) if x != y), min(len(items), len(r.items)))
+                out.append(Failure('correspondence', 'async_trace_eq', case, {
+                    'first_difference_at': k,
+                    'model': [common.show_item(i) for i in items[max(0, k - 4):k + 3]],
+                    'impl': [common.show_item(i) for i in r.items[max(0, k - 4):k + 3]]}))
+    # neither the engine nor a scripted callback raises anything but MachineError / AttributeError / ValueError /
+    # the two scripted kinds: an escaping exception of another kind comes from the queue handling itself
+    odd = [common.show_item(i) for i in r.items if i[0] == 'raised' and i[2] in (5, 6)]
+    if odd:
+        out.append(Failure('monitor', 'unexpected-exception-from-queue-handling', case,
+                           {'items': odd[:3], 'impl_trace': [common.show_item(i) for i in r.items]},
+                           signature='C05.unexpected-exception'))
+    if r.bad:
+        out.append(Failure('monitor', 'async-arguments', case, {'bad': r.bad[:5]}, signature='C05.args'))
+    kind = 'c05' if d.qmode == 1 else 'c05m'
+    a = common.batch_driver([(kind, [d.finalize[0]] + common.enc_items(r.items))])[0]
+    if a != 'ok':
+        out.append(Failure('monitor', 'verified-monitor:AsyncMachine:queued=%r' % (aflat.QMODES[d.qmode],), case,
+                           {'monitor': a, 'impl_trace': [common.show_item(i) for i in r.items]},
+                           signature='C05.monitor'))
+    return out, r
+
+
+def nested_sessions(items):
+    """number of trigger calls that opened a draining session while another one was in progress (per-model queues)"""
+    depth = n = 0
+    for i, it in enumerate(items):
+        if it[0] == 'call':
+            depth += 1
+        elif it[0] == 'done':
+            depth -= 1
+        elif it[0] == 'api' and depth > 0 and i + 1 < len(items) and items[i + 1][0] == 'call':
+            n += 1
+    return n
+
+
+def async_monitor_chunk(seed, idx, n):
+    from .. import aflat
+    rng = random.Random('C05/async-monitor/%d/%d' % (seed, idx))
+    ex = Exploration()
+    descs = [gen_async_monitor(rng) for _ in range(n)]
+    tied = [i for i, d in enumerate(descs) if aflat.is_solo(d)]
+    answers = dict(zip(tied, common.batch_driver([('aflat', aflat.enc_aflat(descs[i])) for i in tied])))
+    for i, d in enumerate(descs):
+        fs, r = async_monitor_judge(d, answers.get(i))
+        if answers.get(i) == 'oof':
+            ex.oof += 1
+        ex.evaluations += 1
+        ex.traces_validated += 1
+        if nontrivial(d, r):
+            ex.nontrivial.add(flatcheck.fingerprint(d) + str(d.qmode))
+        st = ex.stats.setdefault('async_monitor', {})
+        key = 'queued=%r models=%d' % (aflat.QMODES[d.qmode], len(d.models))
+        st[key] = st.get(key, 0) + 1
+        if d.qmode == 2:
+            st['nested_sessions'] = st.get('nested_sessions', 0) + nested_sessions(r.items)
+        ex.failures += fs
+    return ex
+
+
+def any_chunk(kind, *args):
+    """one worker entry point for the three kinds of streams"""
+    if kind == 'flat':
+        return flatcheck.chunk(*args)
+    if kind == 'nested':
+        return nested5.chunk(*args)
+    return async_monitor_chunk(*args)
+
+
 class C05(flatcheck.FlatCheck):
     prop = 'C05'
     manifest = dict(
-        level='proof', design='DESIGN.md 4/C05',
-        text="Lean 4 theorem C05_queued_history: for every queued configuration, every script whose callbacks trigger events / remove models / raise arbitrarily, and every history, the engine model's trace follows the abstract FIFO queue (run-to-completion incl. finalize, arrival order, at most once, deferred calls return True, discard on escape, remove_model drops exactly that model's pending entries, drain returns only when empty). Proved by simulation; the same acceptor judges implementation traces of Machine and of the other synchronous classes; unqueued immediacy by model equality; the asyncio classes (queued=True, queued='model') by a sync-vs-async twin on the same programs (incl. remove_model from callbacks).",
-        note="Trusted: Lean kernel, Model/Core.lean (_process, remove_model) tied by trace equality, acceptor Model/Spec/C05.lean, visibility marker (first finalize callback). Hierarchical machines share Machine._process; their queue behaviour is exercised by the nested correspondence.",
-        technique="Lean 4 proof (simulation with an abstract queue) + differential correspondence + verified trace monitor")
+        level='proof', design='DESIGN.md 4/C05 + design_notes/C05N.md',
+        text="Lean 4 theorem C05_queued_history: for every queued configuration, every script whose callbacks trigger events / remove models / raise arbitrarily, and every history, the engine model's trace follows the abstract FIFO queue (run-to-completion incl. finalize, arrival order, at most once, deferred calls return True, discard on escape, remove_model drops exactly that model's pending entries, drain returns only when empty). Proved by simulation; the same acceptor judges implementation traces of Machine and of the other synchronous classes; unqueued immediacy by model equality. Transports, all by simulation on generic skeletons and for EVERY script without side conditions: C05N_queued_history (hierarchical engine nmachineProcess/ndrain/ntriggerEvent, any state tree, same acceptor, no projection), C05N_deferred_trigger, C05N_unqueued_nested_immediate/_complete; C05A_queued_history (async engine, queued=True, any callback kinds, no staging hypothesis), C05A_queued_history_partial (transport through C07's Agree; acceptor proved insensitive to what obsC07 removes, C05_idle_filter); C05M_permodel_history (queued='model': a stack of per-model sessions, acceptor Model/Spec/C05M.lean). Tie: trace equality model = HierarchicalMachine (queued, and unqueued at root scope) incl. raising callbacks and on_exception, verified acceptors on traces of HierarchicalMachine / LockedHierarchicalMachine / HierarchicalAsyncMachine / AsyncMachine (queued=True and 'model' on 1-3 models), an immediacy oracle on unqueued hierarchical traces, the sync-vs-async twin.",
+        note="Trusted: Lean kernel, Model/Core.lean (_process, remove_model), Model/NestedDispatch.lean, Model/Async.lean tied by trace equality, acceptors Model/Spec/C05.lean and Model/Spec/C05M.lean, visibility marker (first finalize callback). The hierarchical model has one model (no remove_model clause there) and does not model the machine's dynamic scope (unqueued triggers from on_enter/on_exit or from callbacks of events declared inside states are judged by the oracle only). Async: triggers awaited one at a time.",
+        technique="Lean 4 proof (simulation with an abstract queue; generic skeletons for the hierarchical and the async engine) + differential correspondence + verified trace monitors")
     level = 'proof'
-    theorems = ('TM.C05_top_trigger', 'TM.C05_queued_history', 'TM.C05_unqueued_nested_immediate')
+    theorems = ('TM.C05_top_trigger', 'TM.C05_queued_history', 'TM.C05_unqueued_nested_immediate',
+                # hierarchical engine (lean/Props/C05N.lean)
+                'TM.C05N_deferred_trigger', 'TM.C05N_top_trigger', 'TM.C05N_queued_history',
+                'TM.C05N_unqueued_nested_immediate', 'TM.C05N_unqueued_nested_complete',
+                # async engine, queued=True (lean/Props/C05A.lean)
+                'TM.C05A_top_trigger', 'TM.C05A_queued_history', 'TM.C05A_queued_history_obs',
+                'TM.C05A_queued_history_partial',
+                'TM.C05_idle_filter', 'TM.C05_idle_obsC07',
+                # async engine, queued='model' (lean/Props/C05M.lean)
+                'TM.C05M_top_trigger', 'TM.C05M_permodel_history')
     streams = (
         flatcheck.Stream('queued', knobs_q, monitor=monitor, prepare=add_marker, nontrivial=nontrivial,
                          quick=(16, 300), thorough=(64, 2000)),
@@ -112,16 +304,151 @@ class C05(flatcheck.FlatCheck):
     rule = ('random callback programs: scripts in which callbacks at any stage trigger events on the same or other '
             'models (registered or not), call remove_model, or raise (Exception and BaseException), nested through '
             'the queue, on flat machines with 1-3 models, queued (judged by the verified abstract-queue monitor) '
-            'and unqueued (model equality); non-trivial = at least one trigger issued from inside a callback')
+            'and unqueued (model equality); hierarchical machines (random trees with compound / parallel states, depth <= 3, '
+            'machine-level and state-level declarations) with callbacks at every stage triggering events and raising, with '
+            'and without on_exception handlers, queued and direct, on HierarchicalMachine / LockedHierarchicalMachine / '
+            'HierarchicalAsyncMachine; AsyncMachine with queued=True and queued=\'model\' on 1-3 models incl. structured '
+            'nested-session scenarios; non-trivial = at least one trigger issued from inside a callback')
     trusted = ('hand-written model lean/Model/Core.lean (Machine._process, remove_model) tied to /repo by trace equality',
-               'abstract queue acceptor lean/Model/Spec/C05.lean',
+               'hand-written models lean/Model/NestedDispatch.lean (nested-queued / nested-unqueued streams) and '
+               'lean/Model/Async.lean (C07 check + async-monitor stream), tied by trace equality',
+               'abstract queue acceptors lean/Model/Spec/C05.lean (machine-wide) and lean/Model/Spec/C05M.lean (per model)',
                'visibility assumption: a distinguished first finalize_event callback marks completion of an event')
 
     def assumptions(self):
         return ['the theorem covers re-entrant trigger and remove_model commands; dispatch/may/add_model from '
                 'callbacks are exercised by C10/C12 correspondence only',
-                'unqueued immediacy is decided by model equality (the model nests by construction); hierarchical '
-                'machines share Machine._process and are covered by the C02/C03 correspondence']
+                'flat unqueued immediacy is decided by model equality (the model nests by construction)',
+                'hierarchical engine: the model has ONE model, so the remove_model clause is not expressible there '
+                '(flat engine + class streams cover it); unknown event names go through the queue like any other event '
+                '(HierarchicalMachine.trigger_event), which is what the model does',
+                'hierarchical engine, unqueued: the model tie is claimed when no on_enter / on_exit callback triggers '
+                'events (those callbacks run while the machine is scoped into their state and the nested event is '
+                'dispatched relative to that scope; NestedState._scope is not modelled) - the immediacy oracle still judges '
+                'the implementation traces of such runs',
+                'async classes: triggers are awaited one at a time and a callback that awaits triggers sits alone in its '
+                "stage (the regime of C07); queued='model' on several models is judged by the per-model acceptor "
+                'C05M.accept; remove_model under the async queues is covered by the sync-vs-async twin only']
+
+    # -- streams of three kinds in one worker pool ----------------------------------------------------
+    def explore(self, tier, seed):
+        payloads = []
+        for s in self.streams:
+            nch, per = s.quick if tier == 'quick' else s.thorough
+            payloads += [('flat', self.prop, seed, i, per, s.name) for i in range(nch)]
+        for name, cf in nested5.STREAMS.items():
+            nch, per = cf['quick' if tier == 'quick' else 'thorough']
+            payloads += [('nested', seed, i, per, name) for i in range(nch)]
+        nch, per = ASYNC_MONITOR['quick' if tier == 'quick' else 'thorough']
+        payloads += [('async-monitor', seed, i, per) for i in range(nch)]
+        ex = Exploration()
+        for part in runner.parallel(any_chunk, payloads):
+            ex.merge(part)
+        done = set()
+        for f in ex.failures:
+            key = (f.kind, f.what)
+            if key in done:
+                continue
+            done.add(key)
+            try:
+                f.case = runner.shrink(f.case, self.fails_like(f.kind, f.what), self.steps_for(f.case),
+                                       budget=20 if 'hang' in f.what else 300)
+                self.annotate(f)
+            except common.MachineryError:
+                raise
+            except BaseException:
+                pass
+        return ex
+
+    @staticmethod
+    def kind_of(case):
+        if case['stream'] in nested5.STREAMS:
+            return 'nested'
+        if case['stream'] == 'async-monitor':
+            return 'async-monitor'
+        return 'flat'
+
+    def steps_for(self, case):
+        k = self.kind_of(case)
+        if k == 'nested':
+            return nested5.shrink_steps
+        if k == 'async-monitor':
+            def steps(c):
+                for x in flatcheck.shrink_steps(c):
+                    yield dict(c, desc=x['desc'])
+            return steps
+        return flatcheck.shrink_steps
+
+    def failures_of(self, case):
+        k = self.kind_of(case)
+        if k == 'nested':
+            return nested5.rejudge(case)[0]
+        if k == 'async-monitor':
+            from .. import aflat
+            d = aflat.from_json(case['desc'])
+            d.qmode = case['qmode']
+            return async_monitor_judge(d)[0]
+        return self.rejudge(case)[4]
+
+    def fails_like(self, kind, what):
+        def f(case):
+            return any(x.kind == kind and x.what == what for x in self.failures_of(case))
+        return f
+
+    def annotate(self, f):
+        k = self.kind_of(f.case)
+        if k == 'flat':
+            return flatcheck.FlatCheck.annotate(self, f)
+        for x in self.failures_of(f.case):
+            if x.kind == f.kind and x.what == f.what:
+                f.details['shrunk'] = x.details
+
+    def search(self, tier, seed, failures):
+        payloads = []
+        for s in self.streams:
+            if s.monitor or s.oracle:
+                payloads += [('flat', self.prop, seed + 7919, i, 250, s.name) for i in range(24)]
+        for name in nested5.STREAMS:
+            payloads += [('nested', seed + 7919, i, 120, name) for i in range(16)]
+        payloads += [('async-monitor', seed + 7919, i, 150) for i in range(8)]
+        found = []
+        for part in runner.parallel(any_chunk, payloads):
+            found += [f for f in part.failures if f.kind == 'monitor']
+        for f in found[:1]:
+            f.case = runner.shrink(f.case, self.fails_like(f.kind, f.what), self.steps_for(f.case))
+            self.annotate(f)
+        return found
+
+    def replay(self, path):
+        with open(path) as fh:
+            payload = json.load(fh)
+        if 'case' not in payload:
+            print('no concrete input in this replay file: broken obligation', payload.get('broken_obligation'))
+            return 1
+        case = payload['case']
+        k = self.kind_of(case)
+        if k == 'flat':
+            return flatcheck.FlatCheck.replay(self, path)
+        if k == 'nested':
+            return nested5.replay(case)
+        from .. import aflat
+        d = aflat.from_json(case['desc'])
+        d.qmode = case['qmode']
+        fs, r = async_monitor_judge(d)
+        print('AsyncMachine queued=%r models=%r' % (aflat.QMODES[d.qmode], d.models))
+        for i in r.items:
+            print('   ', common.show_item(i))
+        for f in fs:
+            print('FAIL', f.kind, f.what)
+        return 1 if fs else 0
+
+    def leanchecker(self):
+        import subprocess
+        mods = ['Props.C05', 'Props.C05N', 'Props.C05A', 'Props.C05M']
+        p = subprocess.run(['lake', 'env', 'leanchecker'] + mods, cwd=common.LEAN, stdout=subprocess.PIPE,
+                           stderr=subprocess.STDOUT, text=True)
+        if p.returncode != 0:
+            raise common.MachineryError('leanchecker failed: %s' % p.stdout[-1500:])
 
 
 CHECK = C05()
